@@ -283,6 +283,7 @@ func randomAnimInput(rng *rand.Rand, prop string, big bool) animEncInput {
 
 func checkAnimEnc(prop string, args []string) {
 	run := vx.NewRun(prop, "model_checking", args)
+	activeRun = run
 	mode := "exact"
 	if prop == "C18" {
 		mode = "alpha"
